@@ -1,5 +1,5 @@
 import Prism.Proofs.C19
-open Prism
-#print axioms C19_auto
-#print axioms C19_none
-#print axioms C19_matches_specific
+
+#print axioms Prism.C19_auto
+#print axioms Prism.C19_none
+#print axioms Prism.C19_matches_specific
